@@ -77,15 +77,17 @@ Fixpoint set_nth (s : store) (i : nat) (c : cell) : store :=
 Definition write (s : store) (i : nat) (v : Z) : store := set_nth s i (mkCell v (c_ver (get s i) + 1)).
 
 (* One API call (forward / adjoint / prox / cg / transformation ...) on given arguments:
-   - [reads]: ids of the caller-owned cells it may read (arguments, operator buffers),
-   - [temps]: how many fresh cells it allocates (initialised from a function of the values read),
-   - [writes]: in-place writes (cell id, function of the values read),
-   - [out]: the returned value, a function of the values read.
-   A write id is *fresh* when it is >= the length of the store at call time (one of the temporaries). *)
+   - [reads]: ids of the caller-owned cells it may read (arguments, operator buffers, fields of data objects),
+   - [temps]: the fresh cells it allocates (initialised from the values read),
+   - [writes]: in-place writes; the target is either one of the call's own temporaries (what the inventory calls a Fresh
+     site) or an existing cell (a Param / Attr / ViewOfParam / Unknown site),
+   - [out]: the returned value, a function of the values read. *)
+Inductive wtarget := WTemp (k : nat) | WCell (i : nat).
+
 Record call := mkCall {
   reads : list nat;
   temps : list (list Z -> Z);
-  writes : list (nat * (list Z -> Z));
+  writes : list (wtarget * (list Z -> Z));
   out : list Z -> Z
 }.
 
@@ -94,20 +96,24 @@ Definition read_vals (s : store) (c : call) : list Z := map (fun i => c_val (get
 Definition alloc_temps (s : store) (c : call) : store :=
   s ++ map (fun f => mkCell (f (read_vals s c)) 0) (temps c).
 
-Definition do_writes (vals : list Z) (ws : list (nat * (list Z -> Z))) (s : store) : store :=
-  fold_left (fun st w => write st (fst w) (snd w vals)) ws s.
+Definition abs_target (base : nat) (w : wtarget) : nat :=
+  match w with WTemp k => (base + k)%nat | WCell i => i end.
+
+Definition do_writes (base : nat) (vals : list Z) (ws : list (wtarget * (list Z -> Z))) (s : store) : store :=
+  fold_left (fun st w => write st (abs_target base (fst w)) (snd w vals)) ws s.
 
 (* the store after the call, and the result *)
 Definition step (s : store) (c : call) : store * Z :=
   let vals := read_vals s c in
-  (do_writes vals (writes c) (alloc_temps s c), out c vals).
+  (do_writes (List.length s) vals (writes c) (alloc_temps s c), out c vals).
 
 Definition run (s : store) (h : list call) : store := fold_left (fun st c => fst (step st c)) h s.
 
-(* the call only writes cells that it allocated itself, relative to a store with [n] cells;
-   reads are restricted to the caller-owned cells (< owned) so that temporaries of earlier calls are garbage *)
-Definition call_ok (owned n : nat) (c : call) : bool :=
-  forallb (fun w => (n <=? fst w)%nat) (writes c) && forallb (fun i => (i <? owned)%nat) (reads c).
+Definition is_temp (w : wtarget) : bool := match w with WTemp _ => true | WCell _ => false end.
 
-(* the dynamic meaning of a site table: a call is built from sites; it is ok when each site's target is fresh *)
-Definition owned_prefix (owned : nat) (s : store) : store := firstn owned s.
+(* a call all of whose in-place sites are Fresh, reading only the [owned] caller cells (arguments and object state) *)
+Definition call_ok (owned : nat) (c : call) : bool :=
+  forallb (fun w => is_temp (fst w)) (writes c) && forallb (fun i => (i <? owned)%nat) (reads c).
+
+(* the dynamic reading of the static inventory: a site writes a temporary iff its origin is Fresh *)
+Definition target_of_origin (o : origin) (k i : nat) : wtarget := if is_fresh o then WTemp k else WCell i.
